@@ -243,7 +243,41 @@ func (sc *SpecCtx) call(x *SExpr) Val {
 	case "visited": // visited(k): key k already yielded by the map range of the current loop
 		k := sc.eval(args[0])
 		id := sc.iterID()
-		return mkBool(sel(sc.arr("G|it|"+id+"|visited", "(Array Int Bool)"), k.C[0]))
+		kt := k.C[0]
+		if strings.Contains(id, ".range") {
+			// sync.Map keys are interfaces
+			if len(k.C) == 1 {
+				k = st.makeInterface(k, types.NewInterfaceType(nil, nil))
+			}
+			kt = smKey(k)
+		}
+		return mkBool(sel(sc.arr("G|it|"+id+"|visited", "(Array Int Bool)"), kt))
+	case "smValuesAre": // smValuesAre(m, T): every value stored in sync.Map m is a non-nil T (for every key, of any type)
+		m := sc.eval(args[0])
+		t := sc.resolveType(sc.typeArg(args[1]))
+		e.refArr[smVVal] = true
+		id := st.smID(m)
+		e.counter++
+		k := q(fmt.Sprintf("kt$%d", e.counter))
+		d := sc.arr(smDom, "(Array Int (Array Int Bool))")
+		vt := sc.arr(smVTag, arr2Sort(SInt))
+		vv := sc.arr(smVVal, arr2Sort(SInt))
+		return mkBool(fmt.Sprintf("(forall ((%s Int)) (=> (select (select %s %s) %s) (and (= (select (select %s %s) %s) %s) (> (select (select %s %s) %s) 1000))))",
+			k, d, id, k, vt, id, k, e.typeTag(t), vv, id, k))
+	case "smHas": // smHas(m, key): key is present in the sync.Map m
+		m, k := sc.eval(args[0]), sc.eval(args[1])
+		if len(k.C) == 1 {
+			k = st.makeInterface(k, types.NewInterfaceType(nil, nil))
+		}
+		return mkBool(sel(sel(sc.arr(smDom, "(Array Int (Array Int Bool))"), st.smID(m)), smKey(k)))
+	case "smGet": // smGet(m, key): the value stored under key (an interface value)
+		m, k := sc.eval(args[0]), sc.eval(args[1])
+		if len(k.C) == 1 {
+			k = st.makeInterface(k, types.NewInterfaceType(nil, nil))
+		}
+		e.refArr[smVVal] = true
+		id, kt := st.smID(m), smKey(k)
+		return Val{T: types.NewInterfaceType(nil, nil), C: []string{sel(sel(sc.arr(smVTag, arr2Sort(SInt)), id), kt), sel(sel(sc.arr(smVVal, arr2Sort(SInt)), id), kt)}}
 	case "closed":
 		v := sc.eval(args[0])
 		return mkBool(sel(sc.arr(chanClosedName, "(Array Int Bool)"), v.C[0]))
